@@ -3,11 +3,12 @@ import Driver.OpsSignal
 import Driver.OpsSocketcan
 import Driver.OpsFrameText
 import Driver.OpsNetlink
+import Driver.OpsDbc
 /- `canmodel`: reads one operation per line on stdin, prints `model<TAB>spec` per line. -/
 open Driver
 
 def dispatch (ws : List String) : String :=
-  let groups : List (List String → Option (String × String)) := [opsBits, opsSignal, opsSocketcan, opsFrameText, opsNetlink]
+  let groups : List (List String → Option (String × String)) := [opsBits, opsSignal, opsSocketcan, opsFrameText, opsNetlink, opsDbc]
   match groups.findSome? (fun g => g ws) with
   | some (m, s) => m ++ "\t" ++ s
   | none => "bad-op\t-"
